@@ -6,6 +6,7 @@ import (
 	"runtime"
 	"sort"
 	"sync"
+	"sync/atomic"
 	"time"
 
 	"github.com/anishathalye/porcupine"
@@ -111,16 +112,28 @@ func (w *c20world) addItem(b []byte) int {
 	return len(w.items) - 1
 }
 
-func c20buildWorld(r *vf.Rand) *c20world {
+func c20buildWorld(r *vf.Rand) *c20world { return c20buildWorldOpt(r, false, false) }
+
+// c20buildWorldOpt: sameGeom gives every message the byte length and hash
+// function count of the first (tweaks still differ); static gives every
+// message BloomUpdateNone, so that no query changes the filter.
+func c20buildWorldOpt(r *vf.Rand, sameGeom, static bool) *c20world {
 	w := &c20world{}
 	for m := 0; m < c20K; m++ {
 		nb := 1 + r.Intn(c20MaxBytes)
 		if r.Chance(1, 3) {
 			nb = 1 + r.Intn(2)
 		}
+		nh := uint32(1 + r.Intn(3))
+		if sameGeom && m > 0 {
+			nb, nh = w.nbytes[0], w.msgs[0].HashFuncs
+		}
 		w.nbytes[m] = nb
 		flags := []wire.BloomUpdateType{wire.BloomUpdateNone, wire.BloomUpdateAll, wire.BloomUpdateP2PubkeyOnly}[r.Intn(3)]
-		w.msgs[m] = wire.NewMsgFilterLoad(make([]byte, nb), uint32(1+r.Intn(3)), r.Uint32(), flags)
+		if static {
+			flags = wire.BloomUpdateNone
+		}
+		w.msgs[m] = wire.NewMsgFilterLoad(make([]byte, nb), nh, r.Uint32(), flags)
 	}
 	// raw items of every length mod 4
 	for i := 0; i < 4; i++ {
@@ -632,6 +645,263 @@ func c20conservation(c *vf.Ctx, i int) {
 	c.Nontrivial(vf.Mix(20, uint64(i), vf.HashBytes(msg.Filter)))
 }
 
+// c20flipAdds: one goroutine keeps switching the shared filter between
+// harness-owned messages (Reload) while others insert.  Every sequential
+// order of these calls puts each inserted item completely into the message
+// that was loaded at its linearization point and sets no other bit, so at
+// quiescence (a) every inserted item is contained in at least one message and
+// (b) no message has a bit outside the union of its initial bits and the bits
+// of all inserted items under ITS OWN tweak and size.
+func c20flipAdds(c *vf.Ctx, i int) {
+	nm := 2 + c.R.Intn(2)
+	same := c.R.Chance(2, 3)
+	msgs := make([]*wire.MsgFilterLoad, nm)
+	for m := range msgs {
+		nb, nh := 24+c.R.Intn(100), uint32(1+c.R.Intn(4))
+		if same && m > 0 {
+			nb, nh = len(msgs[0].Filter), msgs[0].HashFuncs
+		}
+		msgs[m] = wire.NewMsgFilterLoad(make([]byte, nb), nh, c.R.Uint32(), wire.BloomUpdateNone)
+	}
+	k := []int{2, 3, 4, 6}[i%4]
+	runtime.GOMAXPROCS([]int{2, 4, 16}[(i/4)%3])
+	per := 36 / k
+	items := make([][][]byte, k)
+	for g := range items {
+		items[g] = make([][]byte, per)
+		for j := range items[g] {
+			items[g][j] = append([]byte{byte(g), byte(j)}, c.R.Bytes(c.R.Intn(40))...)
+		}
+	}
+	f := bloom.LoadFilter(msgs[0])
+	var done atomic.Bool
+	var reloads int64
+	var wg, rg sync.WaitGroup
+	start := make(chan struct{})
+	rg.Add(1)
+	go func() {
+		defer rg.Done()
+		<-start
+		for j := 1; !done.Load(); j++ {
+			f.Reload(msgs[j%nm])
+			reloads++
+			if j%7 == 0 {
+				runtime.Gosched()
+			}
+		}
+	}()
+	for g := 0; g < k; g++ {
+		wg.Add(1)
+		go func(g int) {
+			defer wg.Done()
+			<-start
+			for j, it := range items[g] {
+				f.Add(it)
+				if j%4 == g%4 {
+					runtime.Gosched()
+				}
+			}
+		}(g)
+	}
+	close(start)
+	wg.Wait()
+	done.Store(true)
+	rg.Wait()
+	runtime.GOMAXPROCS(runtime.NumCPU())
+	c.Evals(int64(k * per))
+	c.Count("flip_insertions", int64(k*per))
+	c.Count("flip_reloads_during_insertions", reloads)
+	if same {
+		c.Inc("flip_histories_same_geometry_messages")
+	}
+	lost, stray := 0, 0
+	var firstLost []byte
+	for m, msg := range msgs {
+		all := &ref.BloomModel{Bits: make([]byte, len(msg.Filter)), NHash: msg.HashFuncs, Tweak: msg.Tweak, Loaded: true}
+		for g := range items {
+			for _, it := range items[g] {
+				all.Add(it)
+			}
+		}
+		for b := range msg.Filter {
+			if x := msg.Filter[b] &^ all.Bits[b]; x != 0 {
+				stray++
+				c.Failf("Filter/Reload-during-Add/stray-bits", "%d goroutines inserted while one goroutine switched the filter between %d messages (same geometry: %v): message %d (%d bytes, %d hash functions, tweak %08x) has bits %02x set in byte %d that no inserted item maps to under that message's parameters; bytes %x", k, nm, same, m, len(msg.Filter), msg.HashFuncs, msg.Tweak, x, b, msg.Filter)
+				break
+			}
+		}
+	}
+	for g := range items {
+		for _, it := range items[g] {
+			in := false
+			for _, msg := range msgs {
+				real := &ref.BloomModel{Bits: msg.Filter, NHash: msg.HashFuncs, Tweak: msg.Tweak, Loaded: true}
+				if real.Contains(it) {
+					in = true
+				}
+			}
+			if !in {
+				if lost == 0 {
+					firstLost = it
+				}
+				lost++
+			}
+		}
+	}
+	if lost > 0 {
+		c.Failf("Filter/Reload-during-Add/lost-insertion", "%d goroutines inserted %d items while one goroutine switched the filter between %d messages (same geometry: %v, no Unload): %d inserted items are contained in none of the messages at quiescence, e.g. %x", k, k*per, nm, same, lost, firstLost)
+	}
+	h := uint64(23)
+	for _, msg := range msgs {
+		h = vf.Mix(h, vf.HashBytes(msg.Filter))
+	}
+	c.Nontrivial(h)
+}
+
+// c20flipQueries: the messages are pre-populated and never change (flag
+// BloomUpdateNone, no insertions); one goroutine keeps switching the filter
+// between them while others query.  Every sequential order answers a query
+// with its answer under one of the messages in the cycle, so an answer that
+// no message gives is a violation.
+func c20flipQueries(c *vf.Ctx, i int) {
+	w := c20buildWorldOpt(c.R, c.R.Chance(1, 2), true)
+	var st c20state
+	shaped := i%2 == 0
+	var hot int
+	if shaped {
+		// a transaction that message 0 matches through an input only and
+		// message 1 through an output only
+		hot = c.R.Intn(len(w.txs))
+		t := w.txs[hot]
+		in := t.ins[c.R.Intn(len(t.ins))]
+		st.cur = 0
+		if len(in.pushes) > 0 && c.R.Bool() {
+			w.set(&st, in.pushes[c.R.Intn(len(in.pushes))])
+		} else {
+			w.set(&st, in.prevout)
+		}
+		o := t.outs[c.R.Intn(len(t.outs))]
+		st.cur = 1
+		if len(o.pushes) > 0 {
+			w.set(&st, o.pushes[c.R.Intn(len(o.pushes))])
+		}
+		for it := range w.items {
+			st.cur = 2
+			if c.R.Chance(1, 5) {
+				w.set(&st, it)
+			}
+		}
+	} else {
+		for m := 0; m < c20K; m++ {
+			st.cur = int8(m)
+			den := 2 + c.R.Intn(6)
+			for it := range w.items {
+				if c.R.Chance(1, den) {
+					w.set(&st, it)
+				}
+			}
+		}
+	}
+	for m := 0; m < c20K; m++ {
+		copy(w.msgs[m].Filter, st.bits[m][:w.nbytes[m]])
+	}
+	nm := 2 + c.R.Intn(2)
+	// allowed answers per query
+	allowed := func(in c20in) (canTrue, canFalse bool) {
+		for m := 0; m < nm; m++ {
+			s := st
+			s.cur = int8(m)
+			var a bool
+			if in.Op == opMatchTx {
+				a = w.matchTx(&s, w.txs[in.Arg])
+			} else {
+				a = w.has(&s, in.Arg)
+			}
+			if a {
+				canTrue = true
+			} else {
+				canFalse = true
+			}
+		}
+		return
+	}
+	k := []int{2, 3, 4, 6}[(i/2)%4]
+	runtime.GOMAXPROCS([]int{2, 4, 16}[(i/8)%3])
+	per := 60
+	plans := make([][]c20in, k)
+	outs := make([][]bool, k)
+	for g := range plans {
+		plans[g] = make([]c20in, per)
+		outs[g] = make([]bool, per)
+		for j := range plans[g] {
+			switch x := c.R.Intn(10); {
+			case shaped && x < 6:
+				plans[g][j] = c20in{opMatchTx, hot}
+			case x < 4:
+				plans[g][j] = c20in{opMatchTx, c.R.Intn(len(w.txs))}
+			case x < 8:
+				plans[g][j] = c20in{opMatches, c.R.Intn(len(w.items))}
+			default:
+				plans[g][j] = c20in{opMatchesOutPoint, w.opIx[c.R.Intn(len(w.opIx))]}
+			}
+		}
+	}
+	f := bloom.LoadFilter(w.msgs[0])
+	var done atomic.Bool
+	var reloads int64
+	var wg, rg sync.WaitGroup
+	start := make(chan struct{})
+	rg.Add(1)
+	go func() {
+		defer rg.Done()
+		<-start
+		for j := 1; !done.Load(); j++ {
+			f.Reload(w.msgs[j%nm])
+			reloads++
+			if j%5 == 0 {
+				runtime.Gosched()
+			}
+		}
+	}()
+	for g := 0; g < k; g++ {
+		wg.Add(1)
+		go func(g int) {
+			defer wg.Done()
+			<-start
+			for j, in := range plans[g] {
+				outs[g][j] = w.perform(f, in).B
+			}
+		}(g)
+	}
+	close(start)
+	wg.Wait()
+	done.Store(true)
+	rg.Wait()
+	runtime.GOMAXPROCS(runtime.NumCPU())
+	c.Evals(int64(k * per))
+	c.Count("flip_queries", int64(k*per))
+	c.Count("flip_reloads_during_queries", reloads)
+	for m := 0; m < c20K; m++ {
+		if !bytes.Equal(w.msgs[m].Filter, st.bits[m][:w.nbytes[m]]) {
+			c.Failf("Filter/Reload-during-query/message-modified", "message %d (flag BloomUpdateNone, no insertions) changed from %x to %x during a query-only history", m, st.bits[m][:w.nbytes[m]], w.msgs[m].Filter)
+		}
+	}
+	h := uint64(24)
+	for g := range plans {
+		for j, in := range plans[g] {
+			ct, cf := allowed(in)
+			if ct && cf {
+				c.Inc("flip_queries_with_message_dependent_answer")
+			}
+			if (outs[g][j] && !ct) || (!outs[g][j] && !cf) {
+				c.Failf("Filter/Reload-during-query/answer-of-no-state", "%s(%d) returned %v while another goroutine switched the filter between messages 0..%d, but every one of these messages answers %v (messages unchanged during the history; tx matched by message 0 through an input only and by message 1 through an output only: %v)", c20opNames[in.Op], in.Arg, outs[g][j], nm-1, !outs[g][j], shaped)
+			}
+			h = vf.Mix(h, uint64(in.Op), uint64(in.Arg), vf.HashString(fmt.Sprint(outs[g][j])))
+		}
+	}
+	c.Nontrivial(vf.Mix(h, uint64(i)))
+}
+
 // c20gcs: one immutable GCS filter queried by 32 goroutines.
 func c20gcs(c *vf.Ctx, i int) {
 	var key [16]byte
@@ -807,6 +1077,7 @@ func init() {
 		Title: "A bloom filter may be used from many goroutines at once",
 		Rule: "each case is one concurrent history: k in {2,3,4,8,16,32} goroutines x GOMAXPROCS in {1,2,4,16} issue seeded sequences of all ten documented-safe operations (about 48 operations per history) on ONE shared bloom.Filter of 1-8 bytes with 1-3 hash functions over three harness-owned filter-load messages, a dozen items and two spend-linked transactions, with seeded Gosched/spin perturbation between (never inside) operations; " +
 			"the history (call/return stamps from one monotonic clock, widened by 1us) plus the final bytes of every message read at quiescence is checked for linearizability by porcupine against a bit-exact sequential BIP37 model; the same workloads run under the Go race detector. " +
+			"streams bloom-reload-during-add / -query: one goroutine switches the filter between two or three messages (two thirds of the time of equal size and hash count, different tweaks) as fast as it can while others insert (oracle: every inserted item lies completely in one message, no message has a foreign bit) or query pre-populated static messages (oracle: every answer is the answer of one of the messages; half the cases use a transaction matched by one message through an input only and by another through an output only). " +
 			"distinct_nontrivial counts distinct interleaving signatures (hash of the global order of call/return events).",
 		Assumptions: []string{
 			"the sequential model (reference MurmurHash3, BIP37 bit numbering, txscript.PushedData/GetScriptClass as definitions) is validated against the real filter single-threaded in the self-test of every run",
@@ -819,6 +1090,8 @@ func init() {
 			lin(false),
 			{Name: "bloom-stress-race", Race: true, Workers: 1, Shards: 4, Run: c20stress, N: func(t vf.Tier) int { return t.Sz(2000, 40000) }},
 			{Name: "bloom-conservation-race", Race: true, Workers: 1, Shards: 4, Run: c20conservation, N: func(t vf.Tier) int { return t.Sz(960, 19200) }},
+			{Name: "bloom-reload-during-add-race", Race: true, Workers: 1, Shards: 4, Run: c20flipAdds, N: func(t vf.Tier) int { return t.Sz(3000, 60000) }},
+			{Name: "bloom-reload-during-query-race", Race: true, Workers: 1, Shards: 4, Run: c20flipQueries, N: func(t vf.Tier) int { return t.Sz(3000, 60000) }},
 			{Name: "gcs-concurrent-queries-race", Race: true, Workers: 1, Shards: 4, Run: c20gcs, N: func(t vf.Tier) int { return t.Sz(160, 3200) }},
 		},
 	})
